@@ -712,7 +712,7 @@ pub mod pool {
 /// C04: the metadata fetch's row -> `Peer` and option map -> `Strategy` conversions.
 pub mod fetching {
     pub use crate::cluster::metadata::fetching_verif::{
-        peer_from_row, strategy_from_options, validate_peers,
+        parse_cql_type_string, peer_from_row, strategy_from_options, validate_peers,
     };
 }
 
